@@ -44,7 +44,13 @@ place_demo
 echo "== demo on unchanged tree" >> $LOG
 run_demo; demo_clean=$?
 # --- with the mutant
-(cd $WT && git apply $SRC/patch.diff) >> $LOG 2>&1 || { echo "patch does not apply" | tee -a $LOG; git -C /repo worktree remove --force $WT; exit 2; }
+if ! (cd $WT && git apply $SRC/patch.diff) >> $LOG 2>&1; then
+  # written against an older HEAD: three-way merge with the blobs the patch names; keep the result as patch.rebased.diff
+  (cd $WT && git checkout -q -- . && git apply --3way $SRC/patch.diff) >> $LOG 2>&1 && ! (cd $WT && git diff --name-only --diff-filter=U | grep -q .) \
+    || { echo "$ID-$K patch does not apply" | tee -a $LOG; git -C /repo worktree remove --force $WT; exit 2; }
+  (cd $WT && git reset -q && git diff HEAD -- . ':!*zz_*' ':!*demo*') > $OUT/patch.rebased.diff
+  echo "rebased with a three-way merge" >> $LOG
+fi
 echo "== demo with mutant" >> $LOG
 run_demo; demo_mut=$?
 # remove the demo before running the suite
